@@ -25,6 +25,12 @@ use lumina_node::verif::utils::counter::{VCounter, VGuard};
 use verif_harness::*;
 
 const HANG_TIMEOUT: Duration = Duration::from_millis(2500);
+/// after a few observed hangs the remaining runs use a short time-out (a broken build would
+/// otherwise take an hour to report the same failure again and again)
+static HANGS: AtomicU64 = AtomicU64::new(0);
+fn hang_timeout() -> Duration {
+    if HANGS.load(SeqCst) >= 3 { Duration::from_millis(300) } else { HANG_TIMEOUT }
+}
 
 struct FlagWaker {
     woken: AtomicBool,
@@ -176,7 +182,7 @@ fn race_threads(n: usize, rng: &mut Rng) -> (bool, String) {
     let returned;
     {
         let mut fut = std::pin::pin!(Logged { inner: Box::pin(counter.wait_guards()), log: log.clone() });
-        let deadline = Instant::now() + HANG_TIMEOUT;
+        let deadline = Instant::now() + hang_timeout();
         loop {
             waker_state.woken.store(false, SeqCst);
             if fut.as_mut().poll(&mut cx).is_ready() {
@@ -246,7 +252,7 @@ fn race_tokio(rt: &tokio::runtime::Runtime, n: usize, rng: &mut Rng) -> (bool, S
             spin(wd);
             let c = stamp();
             let fut = Logged { inner: Box::pin(counter.wait_guards()), log: wlog };
-            let r = tokio::time::timeout(HANG_TIMEOUT, fut).await.is_ok();
+            let r = tokio::time::timeout(hang_timeout(), fut).await.is_ok();
             (c, r)
         });
         let mut evs = vec![];
@@ -295,7 +301,7 @@ fn race_store(rt: &tokio::runtime::Runtime, n: usize, rng: &mut Rng) -> (bool, S
         spin(wd);
         let c = stamp();
         let fut = Logged { inner: Box::pin(store.close()), log: log.clone() };
-        let returned = match tokio::time::timeout(HANG_TIMEOUT, fut).await {
+        let returned = match tokio::time::timeout(hang_timeout(), fut).await {
             Ok(r) => {
                 r.expect("close");
                 true
@@ -441,14 +447,18 @@ impl Prop for C41 {
         }
         // 3. concurrent runs
         let (nt, nk, ns) = if thorough { (30000, 30000, 2000) } else { (600, 1500, 60) };
+        // every concurrent run is a history of its own (`reset` after it keeps replays minimal)
         for _ in 0..nt {
             out.op(format!("race n={} mode=t seed={}", rng.usize(1, 4), rng.next_u64() >> 16), "race/threads", true);
+            out.op("reset", "race/threads", false);
         }
         for _ in 0..nk {
             out.op(format!("race n={} mode=k seed={}", rng.usize(1, 4), rng.next_u64() >> 16), "race/tokio", true);
+            out.op("reset", "race/tokio", false);
         }
         for _ in 0..ns {
             out.op(format!("store n={} seed={}", rng.usize(1, 4), rng.next_u64() >> 16), "store/close", true);
+            out.op("reset", "store/close", false);
         }
     }
 
@@ -554,7 +564,12 @@ impl Prop for C41 {
                     race_threads(n, &mut rng)
                 };
                 self.last_obs = Some(trace);
-                if returned { "returned".into() } else { "hang".into() }
+                if returned {
+                    "returned".into()
+                } else {
+                    HANGS.fetch_add(1, SeqCst);
+                    "hang".into()
+                }
             }
             "store" => {
                 let (Some(n), Some(seed)) = (arg_u64(line, "n"), arg_u64(line, "seed")) else {
@@ -565,7 +580,12 @@ impl Prop for C41 {
                 let rt = self.rt();
                 let (returned, trace) = race_store(rt, n, &mut rng);
                 self.last_obs = Some(trace);
-                if returned { "returned".into() } else { "hang".into() }
+                if returned {
+                    "returned".into()
+                } else {
+                    HANGS.fetch_add(1, SeqCst);
+                    "hang".into()
+                }
             }
             _ => "bad-op".into(),
         }
